@@ -196,6 +196,9 @@ def relabel_op(op):
     raise ValueError(op)
 
 
+STOP = "stop: same exception on both sides"
+
+
 def mirrored(real, twin, op, op2, counters, relab=False):
     out = []
     for rn, o in ((real, op), (twin, op2)):
@@ -210,6 +213,11 @@ def mirrored(real, twin, op, op2, counters, relab=False):
     (ea, ca, da), (eb, cb, db) = out
     if ea != eb:
         return "follow-up %s: original %s, copy %s" % (op[0], ea or "returned", eb or "returned")
+    if ea is not None:
+        # both raised the same error during the recomputation: the tasks that ran before the raising one
+        # depend on which valid order each manager chose, the partial states are not comparable
+        counters["followups_ended_by_same_exception_on_both"] = counters.get("followups_ended_by_same_exception_on_both", 0) + 1
+        return STOP
     if relab:
         cb = {(("r" + k[len("s['sub']"):]) if k.startswith("s['sub']") else k): v for k, v in cb.items()}
     if ca != cb:
@@ -310,9 +318,15 @@ def part_bc(spec, rng, counters, digests, samples, violations, known):
                 # copy_expr_from into a second manager; reference = manager built directly (M3)
                 node_r = P.node_from_obj(real.data["r"])
                 others = {lab: P.node_from_obj(real.data[lab]) for lab in real.data if lab != "r"}
+                twice = False
                 if mode.startswith("copy-rebind"):
                     relab = True
                     world2 = {"labels": dict({"s": {"dict": [[enc("sub"), node_r], [enc("other"), enc(1.0)]]}}, **others)}
+                    if mode == "copy-rebind" and rng.random() < 0.5:
+                        # the receiving manager also has its own container r: a rebound copy followed by a
+                        # plain copy (the binding of one call must not outlive it)
+                        twice = True
+                        world2["labels"]["r"] = node_r
                 else:
                     world2 = {"labels": dict({"r": node_r}, **others)}
                 twin, m3 = P.Runner(world2), P.Runner(world2)
@@ -343,8 +357,20 @@ def part_bc(spec, rng, counters, digests, samples, violations, known):
                     path = rp(mgrmon.ck_to_path(ck))
                     m3.mgr.register(T.ExprTask(m3.mkref(path), m3.build(rt(term))))
                 bindings = {real.refs["r"]: twin.refs["s"]["sub"]} if relab else None
+                labels_before = dict(twin.mgr.containers)
                 twin.mgr.copy_expr_from(real.mgr, "r", bindings=bindings, overwrite=not mode.endswith("-keep"))
                 counters["managers_copied"] = counters.get("managers_copied", 0) + 1
+                labels_after = dict(twin.mgr.containers)
+                if set(labels_before) != set(labels_after) or any(labels_after[k] is not v for k, v in labels_before.items()):
+                    violations.append(dict(wit, what="C11 copy_expr_from (%s) changed the receiving manager's label -> container map: %s -> %s" % (
+                        mode, sorted(labels_before), {k: str(v) for k, v in labels_after.items()})))
+                    continue
+                if twice:
+                    for ck, term in hg.shadow.defs.items():
+                        if ck[0] == "r":
+                            m3.mgr.register(T.ExprTask(m3.mkref(mgrmon.ck_to_path(ck)), m3.build(term)))
+                    twin.mgr.copy_expr_from(real.mgr, "r")
+                    counters["rebound_then_plain_copies"] = counters.get("rebound_then_plain_copies", 0) + 1
                 a, b = dict(m3.mgr.dump()), dict(twin.mgr.dump())
                 if a != b:
                     violations.append(dict(wit, what="C11 copy_expr_from (%s): definitions differ from the directly built manager: %s" % (
@@ -376,6 +402,8 @@ def part_bc(spec, rng, counters, digests, samples, violations, known):
             if only_r and op[0] == "unreg" and tuple(op[1][:1]) != (("s",) if relab else ("r",)):
                 continue
             why = mirrored(real, twin, op, op, counters)
+            if why == STOP:
+                break
             if why:
                 if "KeyError" in why and only_r:
                     # definitions under other labels are (by contract) not copied: unregistering one is not comparable
